@@ -1,5 +1,230 @@
+"""C09 - TCR Levenshtein metrics are the stated weighted sum over chains and CDR loops."""
+import ast
+
 from .. import AnalysisBroken
+from ..constfold import NotConstant, eval_term
+from ..eff import Effects
+from ..libmodels import LIB_FACTS
+from ..nnabs import fold
+from ..rf import RFContext
+from ..rules import Equiv, canon_binders, canon_params, check_equiv, compare_function, std_rewrites, where_of
+from ..terms import NONE, const, head, is_const, show, strip, strip_all, subst, walk
+from .C08 import SPEC as C08_SPEC, cdist_rewrite, check_scorer
+
+CLAIMED = True
+LEVEL = "other"
+TECHNIQUE = "finite-domain constant folding of the column scheme per class and of the weight selection per column; attribute-chain / keyword-forwarding (binding) rules; value-provenance comparison with a specification; ordering rule for validation; effect analysis"
+TEXT = ("Decides that for each of the six classes the compared columns are exactly {loops in scope} x {chains in scope} (folded from the class's scope "
+        "attributes); that for each of the six column names exactly one chain weight and one loop weight multiply the per-column rapidfuzz cdist "
+        "(...A -> alpha_weight, ...B -> beta_weight, CDRk... -> cdrk_weight), each weight attribute being the same-named constructor parameter through "
+        "ChainWeights / CdrWeights, with every subclass forwarding each keyword to the same-named keyword; that the result is the sum over all columns; "
+        "that CDR1/CDR2 columns are filled from the row's TRAV / TRBV allele (CDR1-IMGT / CDR2-IMGT, '' when absent) on a copy, iff the scope is ALL; "
+        "that validation (ValueError unless a DataFrame with a TCR column) dominates every other use; that calc_pdist_vector is squareform(checks=False) "
+        "of the self cdist; that no table argument is written to. Grade B; tidytcells reference data and rapidfuzz are trusted; pandas label alignment "
+        "in the multi-column assignment is not decided.")
+NOTE = "Trusted: rapidfuzz process.cdist / weights order; tidytcells tr.get_aa_sequence; pandas multi-column assignment aligns the two new columns positionally (probed by hand for duplicate labels)."
+
+T = "pyrepseq.metric.tcr_metric.tcr_levenshtein."
+B = "pyrepseq.metric.tcr_metric.tcr_metric."
+CLASSES = {"AlphaCdr3Levenshtein": ("ALPHA", "CDR3"), "BetaCdr3Levenshtein": ("BETA", "CDR3"), "Cdr3Levenshtein": ("PAIRED", "CDR3"),
+           "AlphaCdrLevenshtein": ("ALPHA", "ALL"), "BetaCdrLevenshtein": ("BETA", "ALL"), "CdrLevenshtein": ("PAIRED", "ALL")}
+COLUMNS = ["CDR1A", "CDR2A", "CDR3A", "CDR1B", "CDR2B", "CDR3B"]
+
+SPEC = '''
+def calc_cdist_matrix(self, anchors, comparisons):
+    if self._cdr_scope is CdrScope.ALL:
+        anchors = self._expand_v_gene_cdrs(anchors)
+        comparisons = self._expand_v_gene_cdrs(comparisons)
+    return sum([self._calc_cdist_matrix_for_column(anchors, comparisons, column) for column in self._get_columns_to_compare()])
+
+def _get_cdr1_from_v_gene_if_possible(v_gene, cdr_loop):
+    data = tr.get_aa_sequence(v_gene)
+    if cdr_loop not in data:
+        return ""
+    return data[cdr_loop]
+
+def base_cdist(self, anchors, comparisons):
+    if not is_in_standard_format(anchors):
+        raise ValueError("anchors")
+    if not is_in_standard_format(comparisons):
+        raise ValueError("comparisons")
+
+def base_pdist(self, instances):
+    if not is_in_standard_format(instances):
+        raise ValueError("instances")
+
+def is_in_standard_format(input):
+    if not isinstance(input, DataFrame):
+        return False
+    if len({"TRAV", "CDR3A", "TRAJ", "TRBV", "CDR3B", "TRBJ"}.intersection(set(input.columns))) == 0:
+        return False
+    return True
+'''
+
+
+def scope_terms(r, cname):
+    cq = T + cname
+    out = {}
+    for attr in ("_chain_scope", "_cdr_scope"):
+        ci, val = r.P.find_class_attr(cq, attr)
+        if val is None:
+            raise AnalysisBroken(f"{cq}: class attribute {attr} not found")
+        d = ast.unparse(val)
+        head_, member = d.rsplit(".", 1)
+        out[attr] = ("glob", T + head_ + "." + member)
+    return out
 
 
 def run(r):
-    raise AnalysisBroken("rule set for C09 not implemented yet (fail-closed stub)")
+    rep = r.rep
+    rep.explanation = "Column schemes were folded per class, weight selection per column name; attribute chains, keyword forwarding, CDR expansion, validation order and write sets were analysed."
+    rep.trust(LIB_FACTS["rapidfuzz.weights"], LIB_FACTS["rapidfuzz.cdist"], LIB_FACTS["squareform"], LIB_FACTS["Series.map"], LIB_FACTS["DataFrame.copy"])
+    base = T + "TcrLevenshtein."
+    selft = ("param", "self")
+    # ---- C09-COL
+    s = r.A.summary(base + "_get_columns_to_compare")
+    rep.analysed(base + "_get_columns_to_compare")
+    for cname, (chain, cdr) in CLASSES.items():
+        if (T + cname) not in r.P.classes:
+            raise AnalysisBroken(f"class {cname} vanished")
+        sc = scope_terms(r, cname)
+        got_scope = (sc["_chain_scope"][1].rsplit(".", 1)[1], sc["_cdr_scope"][1].rsplit(".", 1)[1])
+        ci = r.P.classes[T + cname]
+        w = f"{r.P.modules[ci.module].relpath}:{ci.node.lineno}"
+        rep.ob("C09-COL", T + cname, got_scope == (chain, cdr), f"{cname} is declared with chain scope {chain} and loop scope {cdr}", w, expected=f"{chain}, {cdr}", found=str(got_scope), key="scope table")
+        m = {("attr", selft, a): v for a, v in sc.items()}
+        try:
+            cols = eval_term(fold(s.ret, m))
+        except NotConstant as e:
+            raise AnalysisBroken(f"_get_columns_to_compare does not fold to a constant list for {cname}: {e}")
+        loops = ["CDR3"] + (["CDR1", "CDR2"] if cdr == "ALL" else [])
+        chains = {"ALPHA": ["A"], "BETA": ["B"], "PAIRED": ["A", "B"]}[chain]
+        want = sorted(l + c for l in loops for c in chains)
+        rep.ob("C09-COL", T + cname, sorted(cols) == want and len(cols) == len(set(cols)), f"{cname} compares exactly the loops x chains in its scope, each once", w, expected=str(want), found=str(sorted(cols)), key="columns")
+    # ---- C09-WT
+    q = base + "_calc_cdist_matrix_for_column"
+    s = r.A.summary(q)
+    rep.analysed(q)
+    pn = [p[0] for p in s.params]
+    colp = ("param", pn[3])
+    for col in COLUMNS:
+        t = fold(s.ret, {colp: const(col)})
+        ctx = RFContext(vec=lambda x: head(strip(x)) == "call" and strip(strip(x)[1]) == ("glob", "rapidfuzz.process.cdist"))
+        cd = [x for x in walk(t) if head(x) == "call" and strip(x[1]) == ("glob", "rapidfuzz.process.cdist")]
+        chain_attr = "alpha_weight" if col.endswith("A") else "beta_weight"
+        cdr_attr = f"cdr{col[3]}_weight"
+        ok, found = False, show(t, 120)
+        if len(set(cd)) == 1 and not any(head(x) == "ite" for x in walk(t)):
+            want = ("bin", "*", ("bin", "*", cd[0], ("attr", ("attr", selft, "_chain_weights"), chain_attr)), ("attr", ("attr", selft, "_cdr_weights"), cdr_attr))
+            ok = ctx.rf(t).same(ctx.rf(want))
+            found = ctx.show_rf(ctx.rf(t), 200)
+            c = strip(cd[0])
+            oka = len(c[2]) >= 2 and strip_all(c[2][0]) == ("sub", ("param", pn[1]), const(col)) and strip_all(c[2][1]) == ("sub", ("param", pn[2]), const(col)) and dict(c[3]).get("scorer") == ("attr", selft, "_scorer") \
+                and "dtype" not in dict(c[3]) and "score_cutoff" not in dict(c[3])
+            rep.ob("C09-WT", q, oka, f"column {col}: per-column distances are process.cdist(anchors[{col}], comparisons[{col}], scorer=self._scorer)", where_of(r.P, s.func, s.func.node),
+                   expected="anchors first, the metric's scorer, no narrow dtype / cut-off", found=show(c, 120), key=f"cdist {col}")
+        rep.ob("C09-WT", q, ok, f"column {col}: distances are scaled by exactly {chain_attr} and {cdr_attr}", where_of(r.P, s.func, s.func.node),
+               expected=f"cdist * self._chain_weights.{chain_attr} * self._cdr_weights.{cdr_attr}", found=found, key=f"weights {col}")
+    # attribute chains: constructor parameter -> ChainWeights / CdrWeights parameter -> same-named attribute
+    init = r.A.summary(base + "__init__")
+    rep.analysed(base + "__init__")
+    for holder, cls, attrs in (("_chain_weights", "ChainWeights", ["alpha_weight", "beta_weight"]), ("_cdr_weights", "CdrWeights", ["cdr1_weight", "cdr2_weight", "cdr3_weight"])):
+        v = strip(init.env.get(("@attr", selft, holder), NONE))
+        hs = r.A.summary(T + cls + ".__init__")
+        bind = r.A.bind_call(hs, v, self_term=("param", "self")) if head(v) == "call" and strip(v[1]) == ("glob", T + cls) else None
+        for a in attrs:
+            stored = strip(hs.env.get(("@attr", selft, a), NONE))
+            through = bind.get(stored) if (bind and head(stored) == "param") else None
+            ok = through is not None and strip(through) == ("param", a)
+            rep.ob("C09-WT", base + "__init__", ok, f"self.{holder}.{a} is the constructor's '{a}'", where_of(r.P, init.func, init.func.node), expected=f"{cls}(...).{a} <- parameter {a}",
+                   found=f"{a} <- {show(stored, 30)} <- {show(through, 30)}", key=f"chain {holder}.{a}")
+    # every subclass forwards each keyword to the same-named keyword
+    for cname in CLASSES:
+        iq = r.P.classes[T + cname].methods.get("__init__")
+        if iq is None:
+            continue        # inherits the base constructor
+        ss = r.A.summary(iq)
+        rep.analysed(iq)
+        sup = [e for e in ss.events_of("call") if head(strip(strip(e["term"])[1])) == "attr" and strip(strip(e["term"])[1])[2] == "__init__"]
+        if len(sup) != 1:
+            raise AnalysisBroken(f"{iq}: expected one super().__init__ call")
+        c = strip(sup[0]["term"])
+        okf = not c[2] and all(strip(v) == ("param", k) for k, v in c[3]) and {k for k, _ in c[3]} == {p[0] for p in ss.params if p[0] != "self"}
+        rep.ob("C09-WT", iq, okf, f"{cname} forwards every constructor keyword to the same-named keyword of TcrLevenshtein", where_of(r.P, ss.func, sup[0].node), expected="k=k for every parameter", found=show(c, 160), key="forwarding")
+    check_scorer(r, "C09-WT", base + "__init__")
+    # ---- C09-SUM / C09-CDR / C09-VAL / C09-PV
+    eqs = Equiv(rewrites=std_rewrites() + [canon_binders, cdist_rewrite], modelled={"tidytcells.tr.get_aa_sequence", "scipy.spatial.distance.squareform", "pandas.DataFrame"})
+    compare_function(r, "C09-SUM", base + "calc_cdist_matrix", SPEC, "result = sum over all columns in scope of the per-column weighted cdist; V-gene CDRs expanded (on both tables) iff the loop scope is ALL", eq=eqs, key="sum over columns")
+    compare_function(r, "C09-CDR", base + "_get_cdr1_from_v_gene_if_possible", SPEC, "a CDR loop is read from tidytcells' sequence data of the V allele, '' when the allele has no such loop", eq=eqs, key="loop lookup")
+    e_s = r.A.summary(base + "_expand_v_gene_cdrs")
+    rep.analysed(base + "_expand_v_gene_cdrs", base + "_get_cdrs_from_v_genes")
+    dfp = ("param", e_s.params[1][0])
+    st = {tuple(x[2] for x in strip(e["index"])[1]) if head(strip(e["index"])) == "list" else None: strip_all(e["value"]) for e in e_s.events_of("setitem")}
+    copy = ("call", ("attr", dfp, "copy"), (), ())
+    want = {("CDR1A", "CDR2A"): ("call", ("attr", selft, "_get_cdrs_from_v_genes"), (("attr", copy, "TRAV"),), ()), ("CDR1B", "CDR2B"): ("call", ("attr", selft, "_get_cdrs_from_v_genes"), (("attr", copy, "TRBV"),), ())}
+    alt = {k: subst(v, {("attr", copy, "TRAV"): ("sub", copy, const("TRAV")), ("attr", copy, "TRBV"): ("sub", copy, const("TRBV"))}) for k, v in want.items()}
+    rep.ob("C09-CDR", base + "_expand_v_gene_cdrs", set(st) == set(want) and all(st[k] in (want[k], alt[k]) for k in want), "CDR1A/CDR2A come from the row's TRAV allele and CDR1B/CDR2B from its TRBV allele, written to a copy", where_of(r.P, e_s.func, e_s.func.node),
+           expected="copy[[CDR1A, CDR2A]] = cdrs(copy.TRAV); copy[[CDR1B, CDR2B]] = cdrs(copy.TRBV)", found="; ".join(f"{k} <- {show(v, 60)}" for k, v in st.items()), key="expansion stores")
+    rep.ob("C09-CDR", base + "_expand_v_gene_cdrs", strip_all(e_s.ret) == copy, "the expanded copy is returned", where_of(r.P, e_s.func, e_s.func.node), expected="df.copy()", found=show(e_s.ret, 40), key="expansion result")
+    g_s = r.A.summary(base + "_get_cdrs_from_v_genes")
+    vg = ("param", g_s.params[1][0])
+    attrs = {e["name"]: strip_all(e["value"]) for e in g_s.events_of("setattr")}
+    okc = set(attrs) == {"CDR1X", "CDR2X"}
+    for nm, loop in (("CDR1X", "CDR1-IMGT"), ("CDR2X", "CDR2-IMGT")):
+        v = attrs.get(nm)
+        ok1 = v is not None and head(v) == "call" and head(v[1]) == "attr" and v[1][2] == "map" and v[1][1] == vg and len(v[2]) == 1 and head(v[2][0]) == "lam"
+        if ok1:
+            lam = v[2][0]
+            body = lam[3]
+            ok1 = head(body) == "call" and body[1] == ("attr", selft, "_get_cdr1_from_v_gene_if_possible") and tuple(body[2]) == (("lparam", lam[1], lam[2][0][0]), const(loop))
+        okc = okc and ok1
+    cols = strip_all(g_s.ret)
+    okcols = head(cols) == "call" and cols[1] == ("glob", "pandas.DataFrame") and dict(cols[3]).get("columns") == ("list", (const("CDR1X"), const("CDR2X")))
+    rep.ob("C09-CDR", base + "_get_cdrs_from_v_genes", okc and okcols, "first column = CDR1-IMGT of each allele, second = CDR2-IMGT, cell by cell (Series.map)", where_of(r.P, g_s.func, g_s.func.node),
+           expected="CDR1X <- map(CDR1-IMGT), CDR2X <- map(CDR2-IMGT), in that column order", found="; ".join(f"{k} <- {show(v, 70)}" for k, v in attrs.items()), key="loop columns")
+    # validation dominates
+    compare_function(r, "C09-VAL", B + "TcrMetric.calc_cdist_matrix", SPEC, "non-standard anchors / comparisons raise ValueError", fname="base_cdist", eq=eqs, key="base cdist validation")
+    compare_function(r, "C09-VAL", B + "TcrMetric.calc_pdist_vector", SPEC, "non-standard instances raise ValueError", fname="base_pdist", eq=eqs, key="base pdist validation")
+    compare_function(r, "C09-VAL", B + "is_in_standard_format", SPEC, "standard format = a DataFrame with at least one of the six TCR columns", eq=eqs, key="standard format")
+    for mname, nargs in (("calc_cdist_matrix", 2), ("calc_pdist_vector", 1)):
+        ms = r.A.summary(base + mname)
+        first = [e for e in ms.events if e.kind in ("call", "load_sub", "setitem") and not (e.kind == "call" and strip(strip(e["term"])[1]) == ("glob", "builtins.super"))][0]
+        c = strip(first["term"]) if first.kind == "call" else None
+        ok = c is not None and head(strip(c[1])) == "attr" and strip(c[1])[2] == mname and strip(strip(strip(c[1])[1])[1]) == ("glob", "builtins.super") if c is not None and head(strip(strip(c[1])[1])) == "call" else False
+        ok = ok and tuple(strip(a) for a in c[2]) == tuple(("param", p[0]) for p in ms.params[1:1 + nargs]) and not first.ctx.guards
+        rep.ob("C09-VAL", base + mname, ok, "the base-class validation runs first, on the caller's arguments", where_of(r.P, ms.func, first.node), expected=f"super().{mname}(...) before any other use", found=show(first.data.get("term"), 80), key="validation first")
+    compare_function(r, "C09-PV", base + "calc_pdist_vector", C08_SPEC, "pdist vector = squareform(checks=False) of the self cdist of one and the same table", fname="calc_pdist_vector", eq=eqs, key="pdist vector")
+    # ---- C09-PURE
+    E = Effects(r.P, r.A)
+    for mq, params in ((base + "calc_cdist_matrix", ["anchors", "comparisons"]), (base + "calc_pdist_vector", ["instances"]), (base + "_expand_v_gene_cdrs", ["df"]), (base + "_calc_cdist_matrix_for_column", ["anchors", "comparisons"])):
+        for p in params:
+            if p not in [x[0] for x in r.A.summary(mq).params]:
+                raise AnalysisBroken(f"{mq}: parameter {p} vanished")
+            hit = E.mut[mq].get(p)
+            rep.ob("C09-PURE", mq, hit is None, f"the caller's table '{p}' is left unmodified", where_of(r.P, r.P.functions[mq], r.P.functions[mq].node), expected="no write", found=hit[0] if hit else "no write", key=f"pure {p}")
+    for rule, fl in (("C09-COL", 12), ("C09-WT", 20), ("C09-SUM", 1), ("C09-CDR", 4), ("C09-VAL", 5), ("C09-PV", 1), ("C09-PURE", 6)):
+        rep.floor(rule, fl)
+
+
+from ..selftest import V  # noqa: E402
+
+TL = "pyrepseq/metric/tcr_metric/tcr_levenshtein.py"
+TM = "pyrepseq/metric/tcr_metric/tcr_metric.py"
+VARIANTS = [
+    V("alpha-beta-weights-swapped", TL, '        if "A" in column:\n            cdist *= self._chain_weights.alpha_weight\n        elif "B" in column:\n            cdist *= self._chain_weights.beta_weight', '        if "A" in column:\n            cdist *= self._chain_weights.beta_weight\n        elif "B" in column:\n            cdist *= self._chain_weights.alpha_weight', rule="C09-WT"),
+    V("cdr2-uses-cdr1-weight", TL, '        elif "2" in column:\n            cdist *= self._cdr_weights.cdr2_weight', '        elif "2" in column:\n            cdist *= self._cdr_weights.cdr1_weight', rule="C09-WT"),
+    V("subclass-cross-forward", TL, "            cdr1_weight=cdr1_weight,\n            cdr2_weight=cdr2_weight,\n            cdr3_weight=cdr3_weight,\n        )\n\n\nclass BetaCdrLevenshtein", "            cdr1_weight=cdr2_weight,\n            cdr2_weight=cdr1_weight,\n            cdr3_weight=cdr3_weight,\n        )\n\n\nclass BetaCdrLevenshtein", rule="C09-WT"),
+    V("cdr1-from-cdr2-imgt", TL, 'self._get_cdr1_from_v_gene_if_possible(v, "CDR1-IMGT")', 'self._get_cdr1_from_v_gene_if_possible(v, "CDR2-IMGT")', rule="C09-CDR"),
+    V("copy-removed", TL, "        df = df.copy()\n        df[[\"CDR1A\"", "        df[[\"CDR1A\"", rule="C09"),
+    V("super-call-dropped", TL, "        super().calc_cdist_matrix(anchors, comparisons)\n\n        if self._cdr_scope", "        if self._cdr_scope", rule="C09-VAL"),
+    V("paired-scope-alpha-only", TL, "        if self._chain_scope in (ChainScope.PAIRED, ChainScope.BETA):\n            chain_suffixes.append(\"B\")", "        if self._chain_scope in (ChainScope.BETA,):\n            chain_suffixes.append(\"B\")", rule="C09-COL"),
+    V("chainweights-attrs-swapped", TL, "        self.alpha_weight = alpha_weight\n        self.beta_weight = beta_weight", "        self.alpha_weight = beta_weight\n        self.beta_weight = alpha_weight", rule="C09-WT"),
+    V("sum-skips-first-column", TL, "            for column in self._get_columns_to_compare()\n        ]", "            for column in self._get_columns_to_compare()[1:]\n        ]", rule="C09-SUM"),
+    V("beta-cdrs-from-trav", TL, 'df[["CDR1B", "CDR2B"]] = self._get_cdrs_from_v_genes(df.TRBV)', 'df[["CDR1B", "CDR2B"]] = self._get_cdrs_from_v_genes(df.TRAV)', rule="C09-CDR"),
+    V("cdr3-class-scope-all", TL, '    name = "CDR3 Levenshtein"\n    distance_bins = range(50 + 1)\n    _chain_scope = ChainScope.PAIRED\n    _cdr_scope = CdrScope.CDR3', '    name = "CDR3 Levenshtein"\n    distance_bins = range(50 + 1)\n    _chain_scope = ChainScope.PAIRED\n    _cdr_scope = CdrScope.ALL', rule="C09-COL"),
+    V("validation-accepts-non-frames", TM, "    if not isinstance(input, DataFrame):\n        return False", "    if not isinstance(input, DataFrame):\n        return True", rule="C09-VAL"),
+    V("missing-loop-none", TL, '        if cdr_loop not in v_gene_seq_data:\n            return ""', '        if cdr_loop not in v_gene_seq_data:\n            return None', rule="C09-CDR"),
+    V("expansion-only-anchors", TL, "            comparisons = self._expand_v_gene_cdrs(comparisons)\n", "", rule="C09-SUM"),
+    V("tcr-weights-order", TL, "weights=(insertion_weight, deletion_weight, substitution_weight)", "weights=(insertion_weight, substitution_weight, deletion_weight)", rule="C09-WT"),
+    V("silent-column-access-by-key", TL, 'df[["CDR1A", "CDR2A"]] = self._get_cdrs_from_v_genes(df.TRAV)', 'df[["CDR1A", "CDR2A"]] = self._get_cdrs_from_v_genes(df["TRAV"])', expect="silent"),
+]
